@@ -84,3 +84,29 @@ Theorem C14_sections_right_of_root_join_with_coincident_edges :
     sec_x_right nx (next_edge_right nx root s) s' i (e_y (next_edge_right nx root s)) = sec_x_right nx root s i (e_y root + s_span s).
 Proof. intros; eapply sections_join_right; eassumption. Qed.
 Print Assumptions C14_sections_right_of_root_join_with_coincident_edges.
+
+(* ---- GeomMultiUnification (no leading-edge shift) reproduces the stitched surface (Real/UnifyProofs.v): the first
+   section keeps its columns but the last, every later section sits, column for column, at the offset
+   sum of (ny - 1) of the sections before it, and only the last section keeps its last column ---- *)
+From Coq Require Import List.
+Import ListNotations.
+From OAS Require Import MultiSec UnifyProofs.
+Theorem C14_unification_reproduces_the_sections :
+  forall ny0 (m0 : nat -> nat -> nat -> R) (pre : list (nat * (nat -> nat -> nat -> R))) ny (m : nat -> nat -> nat -> R) suf,
+    (1 <= ny0)%nat ->
+    let U := fst (unify false ((ny0, m0) :: pre ++ (ny, m) :: suf)) in
+    (forall i j d, (j < ny0 - 1)%nat -> U i j d = m0 i j d) /\
+    (forall i k d, (k < match suf with [] => ny | _ => ny - 1 end)%nat ->
+       U i (ny0 - 1 + width_before pre + k)%nat d = m i k d).
+Proof. exact unify_reproduces_sections. Qed.
+Print Assumptions C14_unification_reproduces_the_sections.
+
+(* with coincident shared edges nothing is lost: the dropped last column of a section is the next section's first *)
+Theorem C14_unification_keeps_shared_edges :
+  forall ny0 (m0 : nat -> nat -> nat -> R) (pre : list (nat * (nat -> nat -> nat -> R))) ny (m : nat -> nat -> nat -> R)
+         ny' (m' : nat -> nat -> nat -> R) suf i d,
+    (1 <= ny)%nat -> (2 <= ny')%nat -> m i (ny - 1)%nat d = m' i 0%nat d ->
+    fst (unify false ((ny0, m0) :: pre ++ (ny, m) :: (ny', m') :: suf)) i (ny0 - 1 + width_before pre + (ny - 1))%nat d
+    = m i (ny - 1)%nat d.
+Proof. exact unify_shared_edge. Qed.
+Print Assumptions C14_unification_keeps_shared_edges.
